@@ -87,7 +87,7 @@ FAMILIES["keyring"] = {
 
 FAMILIES["wire"] = {
     "name": "wire", "props": ["C11", "C12", "C13", "C14", "C15", "C16"], "models": "Wire.v, Label.v",
-    "harness": COMMON + ["zz_vf_wire_test.go"], "test": "TestVfWire",
+    "harness": COMMON + ["zz_vf_wire_test.go", "zz_vf_sites_test.go"], "test": "TestVfWire",
     "n": {"quick": 120, "thorough": 2500}, "no_shrink": True,
     "env": {"VF_SHARD": "150"},
     "codes": [(200, 209, ["C12"]), (210, 219, ["C15"]), (220, 229, ["C16"]), (230, 239, ["C14"]), (240, 249, ["C13"]), (250, 259, ["C11"])],
@@ -108,7 +108,7 @@ FAMILIES["wire"] = {
 
 FAMILIES["stream"] = {
     "name": "stream", "props": ["C09", "C12", "C13", "C14", "C15", "C16"], "models": "Stream.v, VerifyProto.v, Label.v",
-    "harness": COMMON + ["zz_vf_wire_test.go", "zz_vf_stream_test.go"], "test": "TestVfStream",
+    "harness": COMMON + ["zz_vf_wire_test.go", "zz_vf_sites_test.go", "zz_vf_stream_test.go"], "test": "TestVfStream",
     "n": {"quick": 5, "thorough": 120}, "no_shrink": True,
     "env": {"VF_SHARD": "600"},
     "codes": [(300, 300, ["C09"]), (301, 301, ["C12"]), (302, 305, ["C13"]), (306, 306, ["C14"]), (307, 308, ["C16"]),
@@ -132,7 +132,7 @@ FAMILIES["stream"] = {
 
 FAMILIES["probe"] = {
     "name": "probe", "props": ["C19"], "models": "Probe.v",
-    "harness": COMMON + ["zz_vf_wire_test.go", "zz_vf_probe_test.go"], "test": "TestVfProbe",
+    "harness": COMMON + ["zz_vf_wire_test.go", "zz_vf_sites_test.go", "zz_vf_probe_test.go"], "test": "TestVfProbe",
     "n": {"quick": 800, "thorough": 150000}, "no_shrink": True,
     "codes": [(400, 409, ["C19"])],
     "code_names": {1: "undecodable case",
@@ -147,7 +147,7 @@ FAMILIES["probe"] = {
 
 FAMILIES["life"] = {
     "name": "life", "props": ["C20"], "models": "Lifecycle.v, Core.v",
-    "harness": COMMON + ["zz_vf_wire_test.go", "zz_vf_life_test.go"], "test": "TestVfLife",
+    "harness": COMMON + ["zz_vf_wire_test.go", "zz_vf_sites_test.go", "zz_vf_life_test.go"], "test": "TestVfLife",
     "n": {"quick": 600, "thorough": 60000},
     "codes": [(500, 509, ["C20"])],
     "code_names": {1: "undecodable case", 70: "panic outcome differs from the lifecycle model",
@@ -183,7 +183,7 @@ FAMILIES["cluster"] = {
 
 FAMILIES["liferace"] = {
     "name": "liferace", "props": ["C20"], "models": "(none: runtime behaviour)", "tiers": ["thorough"],
-    "harness": COMMON + ["zz_vf_wire_test.go", "zz_vf_life_test.go"], "test": "TestVfLifeRace",
+    "harness": COMMON + ["zz_vf_wire_test.go", "zz_vf_sites_test.go", "zz_vf_life_test.go"], "test": "TestVfLifeRace",
     "goflags": ["-race"], "env": {"VF_RACE": "1", "VF_RACE_SECONDS": "60"},
     "n": {"quick": 0, "thorough": 0}, "no_shrink": True,
     "codes": [], "code_names": {},
